@@ -83,7 +83,7 @@ TraceNext ==
      THEN /\ S' = [Empty EXCEPT !.now = e.t1] /\ bad' = {}
           /\ PrintT(ToJson(<<"TRACE", e.tr>>))
      ELSE LET S2 == Adopt(S, e)
-              vs == V(S, e, S2) \cup Inv(S2)
+              vs == V(S, e, S2) \cup VGeneric(S, e, S2) \cup Inv(S2)
           IN /\ S' = S2
              /\ bad' = bad \cup {Prop(c) : c \in vs}
              /\ \A c \in vs : PrintT(ToJson(<<"VIOL", e.tr, e.i, e.op, c, bad, Detail(S, e, c)>>))
